@@ -336,6 +336,24 @@ func main() {
 			continue
 		}
 		w.Servant.Clock = netlab.Tick
+		// every third call decodes its out parameters into variables the caller has used before
+		// (non-empty maps and vectors, set scalars, filled structs)
+		{
+			var mu sync.Mutex
+			var n int
+			pr := rand.New(rand.NewSource(run.Seed*977 + int64(ci)))
+			pg := &valueGen{g: sch.NewGen(pr), r: pr}
+			w.Prefill = func(p vworld.Param, dst reflect.Value) {
+				mu.Lock()
+				defer mu.Unlock()
+				if n++; n%3 != 0 {
+					return
+				}
+				gv, _ := pg.goValue(p.T, p.GoT, sch.ModeNonZero)
+				dst.Set(reflect.ValueOf(gv))
+				run.Add("calls_with_out_variables_in_use", 1)
+			}
+		}
 		backWorld = nil
 		if cfg.TwoHop {
 			bconf := netlab.DefaultServerConf("tcp")
